@@ -191,4 +191,95 @@ def run(tier):
                       "psX509AuthenticateCert(...) == PS_SUCCESS")
     dominated_success(res, PROP, "C03.R4", eng, tr, drv, nonneg_possible, "plc", {"nonneg", "zero", "pos", None},
                       "checkPathLenConstraint(...) >= 0")
+    rule_R5(res, prog)
     return res.finish()
+
+
+def rule_R5(res, prog):
+    """Writer / reader agreement on the `absent` value of basicConstraints.pathLenConstraint: the parser stores a negative
+    constant when the field is absent; every presence test that gates the depth comparison must be taken for the value 0
+    (RFC 5280 4.2.1.9: INTEGER (0..MAX); 0 = the CA may issue end-entity certificates only) and must not be taken for the
+    parser's absent value; the depth comparison's failing edge must be an error exit."""
+    import operator
+    from sa import cfgutil as cu
+    from sa.pp import pp
+    res.rule("C03.R5", "pathLenConstraint: the presence test is true for 0 and false for the parser's absent value; a violated "
+                       "constraint is an error exit")
+    ops = {"<": operator.lt, "<=": operator.le, ">": operator.gt, ">=": operator.ge, "==": operator.eq, "!=": operator.ne}
+    sentinels = set()
+    for fn in prog.functions.values():
+        for b, ln, n in fn.nodes():
+            if n.get("k") == "bin" and n["op"] == "=":
+                l = strip(n["l"])
+                r = strip(n["r"])
+                if l is not None and l.get("k") == "mem" and l.get("f") == "pathLenConstraint" and r is not None:
+                    v = None
+                    if r.get("k") == "int":
+                        v = r["v"]
+                    elif r.get("k") == "un" and r["op"] == "-" and (strip(r["e"]) or {}).get("k") == "int":
+                        v = -strip(r["e"])["v"]
+                    if v is not None and v < 0:
+                        sentinels.add(v)
+    if not sentinels:
+        raise AnalysisBroken("C03.R5: the parser no longer stores a negative 'absent' value into pathLenConstraint")
+    n = 0
+    for fn in sorted(prog.functions.values(), key=lambda f: f.qname):
+        if not fn.relfile.startswith("matrixssl/"):
+            continue
+        for b in fn.blocks:
+            t = b.get("term")
+            if t is None or "c" not in t:
+                continue
+            c = strip(t["c"])
+            if c is None or c.get("k") != "bin" or c["op"] not in ops:
+                continue
+            l, r = strip(c["l"]), strip(c["r"])
+            if not (l is not None and l.get("k") == "mem" and l.get("f") == "pathLenConstraint"):
+                continue
+            if r is not None and r.get("k") == "int":
+                # presence test
+                n += 1
+                at0 = ops[c["op"]](0, r["v"])
+                at_s = [ops[c["op"]](s_, r["v"]) for s_ in sentinels]
+                # which edge leads to a comparison of the constraint with the depth?
+                def reaches_depth_cmp(start):
+                    seen = set()
+                    st = [start]
+                    while st:
+                        x = st.pop()
+                        if x in seen or x is None:
+                            continue
+                        seen.add(x)
+                        tx = fn.bmap[x].get("term")
+                        if tx is not None and "c" in tx:
+                            cx = strip(tx["c"])
+                            if cx is not None and cx.get("k") == "bin" and cx["op"] in ops and \
+                                    (strip(cx["l"]) or {}).get("f") == "pathLenConstraint" and (strip(cx["r"]) or {}).get("k") != "int":
+                                return True
+                        st.extend(cu.succs(fn, x))
+                    return False
+                t_edge = reaches_depth_cmp(b["succ"][0].get("b"))
+                f_edge = reaches_depth_cmp(b["succ"][1].get("b")) if len(b["succ"]) > 1 else False
+                ok = (t_edge and not f_edge and at0 and not any(at_s)) or (f_edge and not t_edge and (not at0) and all(at_s))
+                f_ = None
+                if not ok:
+                    f_ = Finding(PROP, "C03.R5", fn.name, "pathLenConstraint presence test %s %s" % (c["op"], r["v"]),
+                                 "%s:%s %s(): the test `pathLenConstraint %s %s` decides whether the path length is checked; it is %s "
+                                 "for a constraint of 0 and %s for the parser's 'absent' value %s: a pathLenConstraint of 0 must be "
+                                 "enforced and an absent one must not" % (fn.relfile, t["ln"], fn.name, c["op"], r["v"], at0, at_s, sorted(sentinels)),
+                                 file=fn.relfile, line=t["ln"])
+                res.instance("C03.R5", "%s:%s pathLenConstraint %s %s" % (fn.name, t["ln"], c["op"], r["v"]), ok, finding=f_)
+            else:
+                # depth comparison: `pathLenConstraint < pathLen` -> error exit
+                n += 1
+                k_bad = 0 if c["op"] in ("<", "<=") else 1
+                bad = cu.edge_only_errors(fn, b, k_bad)
+                ok = c["op"] == "<" and bad is None
+                f_ = None
+                if not ok:
+                    f_ = Finding(PROP, "C03.R5", fn.name, "path length comparison %s" % c["op"],
+                                 "%s:%s %s(): `%s` - a path longer than the constraint must end in an error return (RFC 5280 6.1.4 (m)); "
+                                 "operator %s, offending return line %s" % (fn.relfile, t["ln"], fn.name, pp(c)[:80], c["op"], bad),
+                                 file=fn.relfile, line=t["ln"])
+                res.instance("C03.R5", "%s:%s %s -> error exit" % (fn.name, t["ln"], pp(c)[:60]), ok, finding=f_)
+    res.floor("C03.R5", 2)
